@@ -526,8 +526,10 @@ void C18Exec::concurrent(const SchedConfig &scIn, C18Outcome &out) {
                     "I3-result-differs", op, t, (int)i,
                     "interleaved result " + s.got.brief() +
                         " differs from the result of the same call executed alone " +
-                        s.expected.brief() + " (errno on entry " +
-                        std::to_string(entryErrnoFor(mix2(cs.caseSeed, op.hash()) + (uint64_t)t)) + "; alone 0)",
+                        s.expected.brief() + " [interleaved: on task thread " + std::to_string(t) + " after " +
+                        std::to_string(i) + " earlier call(s) of its program, errno " +
+                        std::to_string(entryErrnoFor(mix2(cs.caseSeed, op.hash()) + (uint64_t)t)) +
+                        " on entry; alone: on a fresh thread, errno 0]",
                     ""));
             else if (!s.got.guardsOk)
                 out.violations.push_back(mkViolation(
